@@ -42,7 +42,7 @@ for name in sorted(first):
     s = fsig.get(t) or sig.get(t) or ''
     out.append('| %s | %s | %s | %s | %s | `%s` |' % (name, t, 'yes' if hit else '**no**', ' '.join(ids) or '**none**', fin, s[:80]))
 out += ['', 'Totals over %d changes: first pass - target check fired for %d, some check fired for %d; with the harness as it stands the target check fires for %d.' % (len(first), nt, na, nf),
-        '', 'The C10 column of the first eight rows of matrix 4 is left out: those runs used a harness snapshot that held the C10 operand regression (DESIGN.md section 17), so C10 "fired" on changes that cannot touch ordering; C10 was re-run for those rows with the repaired harness and is silent. One alarm of C14 in the row C10-F was a false alarm of the harness (an operation beyond badger's transaction-size limit, generated because cases were not yet pure functions of the seed; DESIGN.md section 17) and is not counted.', '']
+        '', 'The C10 column of the first eight rows of matrix 4 is left out: those runs used a harness snapshot that held the C10 operand regression (DESIGN.md section 17), so C10 "fired" on changes that cannot touch ordering; C10 was re-run for those rows with the repaired harness and is silent. One alarm of C14 in the row C10-F was a false alarm of the harness (an operation beyond the transaction-size limit of badger, generated because cases were not yet pure functions of the seed; DESIGN.md section 17) and is not counted.', '']
 open(os.path.join(root, 'DETECTION.md'), 'w').write(md + "\n".join(out))
 print("\n".join(out[-4:]))
 
